@@ -13,8 +13,9 @@ import re
 from props import syntaxlib as L
 
 SUPVAL = {0xB9: 1, 0xB2: 2, 0xB3: 3, 0x2074: 4, 0x2075: 5, 0x2076: 6, 0x2077: 7, 0x2078: 8, 0x2079: 9}
-STATEMENT_START = {"Let", "Fn", "Dimension", "At", "Unit", "Use", "Struct", "ProcedurePrint", "ProcedureAssert",
-                   "ProcedureAssertEq", "ProcedureType"}
+STATEMENT_START = {"Fn", "Dimension", "At", "Unit", "Use", "Struct"}
+PROCEDURES = {"ProcedurePrint": "print", "ProcedureAssert": "assert", "ProcedureAssertEq": "assert_eq",
+              "ProcedureType": "type"}
 
 
 def unesc(s):
@@ -201,7 +202,34 @@ def decide(token_dump):
         return None
     p = P(toks)
     try:
-        e = p.expr(0)
+        if kinds[0] == "Let":
+            # statement syntax of the model: let name = expression (type annotations are not decided here)
+            p.next()
+            if p.peek() != "Identifier":
+                return "ERR"
+            name = p.next()[1]
+            if p.peek() == "Colon":
+                return None
+            if p.peek() != "Equal":
+                return "ERR"
+            p.next()
+            e = "(let %s %s)" % (name, p.expr(0))
+        elif kinds[0] in PROCEDURES:
+            p.next()
+            if p.peek() != "LeftParen":
+                return "ERR"
+            p.next()
+            args = []
+            while p.peek() != "RightParen":
+                args.append(p.expr(0))
+                if p.peek() == "Comma":
+                    p.next()
+                elif p.peek() != "RightParen":
+                    raise Reject()
+            p.next()
+            e = "(%s%s)" % (PROCEDURES[kinds[0]], "".join(" " + a for a in args))
+        else:
+            e = p.expr(0)
         if p.peek() != "Eof":
             return "ERR"
         return "OK " + e
